@@ -29,6 +29,7 @@ Both are inherent in writing preprocessed text without a marker that it is prepr
 `-fpreprocessed` / the `.i` suffix; chibicc has neither).
 -/
 import ChibiVerif.Props.C19
+import ChibiVerif.Props.C19Program
 
 namespace ChibiVerif.Findings.C19
 open ChibiVerif.Lex ChibiVerif.LexChar ChibiVerif.Gen.Lex
@@ -182,5 +183,37 @@ theorem C19_second_pass_first_token_region :
   decide +kernel
 
 end SecondPass
+
+/-! ## The same-program half outside the inert region -/
+section SameProgram
+open ChibiVerif.C19Bridge ChibiVerif.C19Convert ChibiVerif.Props.C19
+
+/-- the token list the first compilation holds for `#undef linux` / `int linux = 1;` -/
+def intLinux : List Tok :=
+  [⟨.ident, [105, 110, 116], true, false⟩, ⟨.ident, [108, 105, 110, 117, 120], false, true⟩, ⟨.punct, [61], false, true⟩,
+   ⟨.ppnum, [49], false, true⟩, ⟨.punct, [59], false, false⟩]
+
+/-- compiled directly, `parse` receives keyword `int`, identifier `linux`, `=`, number `1`, `;`; compiled from the `-E` text
+    `int linux = 1;` it receives keyword `int`, NUMBER `1`, `=`, number `1`, `;` (and rejects it: confirmed on the binary) -/
+theorem C19_same_program_undef_predefined :
+    printTokens intLinux = cps "int linux = 1;\n" ∧
+    cc1OfTokens numOkSimple intLinux = .ok [⟨.keyword, .ident, [105, 110, 116]⟩, ⟨.ident, .ident, [108, 105, 110, 117, 120]⟩,
+      ⟨.punct, .punct, [61]⟩, ⟨.num, .ppnum, [49]⟩, ⟨.punct, .punct, [59]⟩] ∧
+    cc1Tokens numOkSimple 100 "b.c" (printTokens intLinux) = .ok [⟨.keyword, .ident, [105, 110, 116]⟩, ⟨.num, .ppnum, [49]⟩,
+      ⟨.punct, .punct, [61]⟩, ⟨.num, .ppnum, [49]⟩, ⟨.punct, .punct, [59]⟩] := by decide +kernel
+
+/-- **`C19_same_program_Statement` is false for chibicc**: the list satisfies every hypothesis of `C19_same_tokens` except
+    inertness (known finding C19-second-pass-initial-macro-name) -/
+theorem C19_finding_same_program_initial_macro_name : ¬ C19_same_program_Statement := by
+  intro h
+  have h1 := h numOkSimple intLinux (by decide) (by decide) 100 (by decide) "b.c"
+  have h2 := C19_same_program_undef_predefined
+  rw [h2.2.1, h2.2.2] at h1
+  revert h1
+  decide
+
+theorem intLinux_not_inert : Inert isInitMacro (normFirst intLinux) = false := by decide
+
+end SameProgram
 
 end ChibiVerif.Findings.C19
